@@ -674,28 +674,51 @@ def local_uses(body, l):
 
 def forward_uses(body, l, through_transparent=True, limit=200):
     """transitive forward slice of a value held in local l: follows copies/moves/casts/field reads/
-    transparent calls; returns the 'sink' uses (anything that is not a plain forwarding)."""
+    transparent calls, and a value packed into a tuple local is followed through the reads of that tuple field only
+    (`let (a, b) = if c { (&x, &y) } else { (&e, &e) }`); returns the 'sink' uses (anything that is not a plain forwarding)."""
     sinks = []
     seen = set()
-    work = [l]
+    work = [(l, None)]
     while work and len(seen) < limit:
-        x = work.pop()
-        if x in seen:
+        item = work.pop()
+        if item in seen:
             continue
-        seen.add(x)
+        seen.add(item)
+        x, fld = item
         for u in local_uses(body, x):
             k = u['kind']
             if k == 'drop':
                 continue
+            op = u.get('op')
+            if fld is not None:
+                # only reads of tuple field `fld` (or of the whole tuple) carry the value
+                pr = op['place']['p'] if op is not None and is_place_op(op) else None
+                if pr is None:
+                    continue
+                if pr and pr[0]['k'] == 'field':
+                    if pr[0]['i'] != fld:
+                        continue
+                    sub = None
+                elif not pr:
+                    sub = fld
+                else:
+                    continue
+            else:
+                sub = None
             if k == 'stmt':
                 st = u['stmt']
                 rv = st['rv']
                 if rv['rv'] in ('use', 'cast', 'ref', 'rawptr') and not st['place']['p']:
-                    work.append(st['place']['l'])
+                    work.append((st['place']['l'], sub))
                     continue
                 if rv['rv'] == 'discr':
                     # reading the discriminant only: not a use of the payload; record as 'discr'
                     sinks.append(dict(u, sink='discr'))
+                    continue
+                if rv['rv'] == 'agg' and rv.get('kind') == 'tuple' and not st['place']['p'] and sub is None:
+                    for oi, o in enumerate(rv['ops']):
+                        if o is op:
+                            work.append((st['place']['l'], oi))
                     continue
                 if rv['rv'] in ('use', 'cast') and st['place']['p']:
                     sinks.append(dict(u, sink='store'))
@@ -705,7 +728,7 @@ def forward_uses(body, l, through_transparent=True, limit=200):
             if k == 'callarg':
                 c = u['call']
                 if through_transparent and is_transparent(c.callee) and u['argi'] == 0 and not c.dest['p']:
-                    work.append(c.dest['l'])
+                    work.append((c.dest['l'], sub))
                     continue
                 sinks.append(dict(u, sink='call'))
                 continue
